@@ -213,6 +213,8 @@ pub enum Op {
     /// reuse one slot n times (insert a far-away timer, remove it) while checking that tokens
     /// issued 1, 255, 256, 4095, 65535 reuses ago stay dead
     SlotChurn(u32),
+    /// a future on executor `exec` that awaits a `TimeoutFuture` (which inserts a hidden Timer)
+    ScheduleTimeout { exec: Id, task: Id, dl: Deadline },
 }
 
 pub const INTEREST_NAMES: [&str; 4] = ["EMPTY", "READ", "WRITE", "BOTH"];
@@ -329,6 +331,7 @@ impl Op {
             Op::AdapterPeerRead(..) => "AdapterPeerRead",
             Op::AdapterPeerClose(_) => "AdapterPeerClose",
             Op::SlotChurn(_) => "SlotChurn",
+            Op::ScheduleTimeout { .. } => "ScheduleTimeout",
         }
     }
 }
